@@ -84,7 +84,11 @@ class StopSimulation(Exception):
         if event.ok:
             raise cls(event.value)
         else:
-            raise event._value
+            # Reported by run() once step() has served all waiters of the
+            # event (raising the failure itself here would skip them).
+            stop = cls(None)
+            stop.failed = event
+            raise stop
 
 
 SimTime = Union[int, float]
@@ -283,6 +287,9 @@ class Environment:
             while True:
                 self.step()
         except StopSimulation as exc:
+            failed = getattr(exc, 'failed', None)
+            if failed is not None:
+                raise failed._value
             return exc.args[0]  # == until.value
         except EmptySchedule:
             if until is not None:
